@@ -227,7 +227,30 @@ def run(tier):
         want = {"k": "CONSTANT", "d": dbits(float(text))}        # python float(): correctly rounded decimal -> binary64 (independent oracle)
         if tree != want and not (float(text) == int(float(text)) and "." not in text and "e" not in text.lower()):
             c.finding("c02:float:%s" % text, "floating literal %s is not converted to the nearest double: %s" % (text, json.dumps(tree)), {"kind": "literal", "text": text, "expected": want, "tree": tree})
-    c.cov["traces_validated_against_impl"] = n_cb + n_tree + n_ctx
+    # ---- queries: the operator kind at the root (and of the first operand) of every query form of Queries.tla
+    import c03
+    qf = os.path.join(c.run_dir, "queries.ndjson")
+    mq = vf.run_tlc("Queries", "Queries.cfg", c.run_dir, env={"OUTF": qf}, timeout=300)
+    c.add_tlc("Queries", mq, "query forms with the operator kind their tree must have at the root (RootKind, ChildKind)")
+    qk = vf.read_ndjson(qf + ".kinds")
+    qscaffold = render_xml({"decl": c03.SCAFFOLD_DECL, "templates": [c03.P_TEMPLATE], "system": "system P;"})
+    qjob = {"id": "qk", "entry": "xml_buffer", "text": qscaffold, "structure": False,
+            "roundtrip": [{"text": "strategy S = control: A[] P.L1", "query": True}] + [{"text": c03.render_query(x["qq"]), "query": True} for x in qk]}
+    qres = vf.run_jobs([qjob], c.run_dir, variant="plain", name="qk")["qk"]
+    if "roundtrip" not in qres:
+        raise vf.MachineryError("query scaffold failed: %s" % json.dumps(qres)[:400])
+    n_q = 0
+    for x, rt in zip(qk, qres["roundtrip"][1:]):
+        tr = rt.get("t1")
+        if rt["status"] == "not-accepted" or not tr:
+            continue
+        n_q += 1
+        kids = [k.get("k") if isinstance(k, dict) else None for k in (tr.get("c") or [])]
+        if tr.get("k") != x["root"] or (x["child"] and (not kids or kids[0] != x["child"])):
+            c.finding("c02:query-kind:%s" % x["qq"]["form"], "the query `%s` is handed to clients as a %s tree (first operand %s); its form prescribes %s%s" % (
+                rt["text"], tr.get("k"), kids[:1], x["root"], " over " + x["child"] if x["child"] else ""), {"kind": "query", "text": rt["text"], "form": x["qq"], "tree": tr})
+    c.cov["query_forms_with_kind_checked"] = n_q
+    c.cov["traces_validated_against_impl"] = n_cb + n_tree + n_ctx + n_q
     c.cov["evaluations"] = n_cb + n_tree + n_ctx + len(lit_exprs)
     c.cov["distinct_nontrivial"] = len([e for e in univ if len(sig(e["t"])) > 12])
     c.cov["callback_sequences_compared"] = n_cb
